@@ -25,6 +25,12 @@ CLAIMED = {
                 'per-element logs concatenate, handler fold (generic then per original code, each once), handlers never on success or rejected documents. '
                 'Correspondence over stacks of 0..3 middlewares of six kinds x handler tables x request kinds on both dispatchers.',
                 note='Kernel + standard axioms; middlewares / handlers are interpreted from finite kinds compiled to real Python callables by the harness.'),
+    'C04': dict(ref='§4 C04', text='Lean theorems: C04_partial / C04_partial_dispatch — for every signature of positional-or-keyword / keyword-only parameters (any length, any defaults), '
+                'context by name or as first positional argument, every positional list and every named mapping: the body runs iff a direct Python call binds, receives exactly the bound values + defaults + context, '
+                'and its return value is the result; else -32602 without execution (closed forms of inspect.Signature.bind and of the call protocol, by induction on the parameter list). '
+                'C04_context_not_overridable for all kinds. The full statement is proved FALSE of the pinned tree (C04Statement_false, D6 witnesses by decide), recorded as known findings. '
+                'Tied by exhaustive enumeration of all signatures of <=3 (quick) / <=4 (thorough) parameters over the five kinds against the real dispatchers; reference oracle = CPython direct call of a recording twin.',
+                note='Kernel + standard axioms; CPython Signature._bind and the call protocol are transcribed (Bind.lean) and checked exhaustively; variadic / positional-only kinds are the recorded defect D6 (decided by the oracle).'),
     'C05': dict(ref='§4 C05', text='Lean theorems over the message model: from_json∘to_json = id up to falsy-params normalisation for requests, '
                 'responses, errors, batches and batch-level errors; to_json fixpoint; exact wire form; class-by-code. Tied to the code by the '
                 'msg correspondence suite (real constructors / to_json / JSON text through both encoders / from_json vs the model) and the constants translator.',
